@@ -129,18 +129,6 @@ func (idx *IndexWriter) WriteToBoltDatabase(db *bbolt.DB) error {
 		return err
 	}
 
-	if err := bucket.Put(keySchema, buf.Bytes()); err != nil {
-		return err
-	}
-
-	var rowIDbuf [4]byte
-
-	binary.BigEndian.PutUint32(rowIDbuf[:], idx.nextRowID)
-
-	if err := bucket.Put(keyNextRowID, rowIDbuf[:]); err != nil {
-		return err
-	}
-
 	i := 0
 
 	for k, v := range idx.values {
@@ -171,6 +159,22 @@ func (idx *IndexWriter) WriteToBoltDatabase(db *bbolt.DB) error {
 
 			bucket = tx.Bucket([]byte("data"))
 		}
+	}
+
+	// The schema and the row counter are what makes OpenIndex accept the file. They go into
+	// the last transaction, after all bitmaps: if the process dies before that transaction is
+	// committed, the file holds no schema and is rejected instead of being opened as an index
+	// that misses bitmaps.
+	if err := bucket.Put(keySchema, buf.Bytes()); err != nil {
+		return err
+	}
+
+	var rowIDbuf [4]byte
+
+	binary.BigEndian.PutUint32(rowIDbuf[:], idx.nextRowID)
+
+	if err := bucket.Put(keyNextRowID, rowIDbuf[:]); err != nil {
+		return err
 	}
 
 	if err := tx.Commit(); err != nil {
